@@ -1345,6 +1345,20 @@ def fam_topo(cs, rng):
         windows = rand_windows(rng, ref, allow_special=False) if rng.random() < 0.75 else None
         span_normalise = rng.random() < 0.5
         pair_normalise = rng.random() < 0.4
+        gaps = [t for t in ref.trees if not t.has_edges]
+        if gaps and rng.random() < 0.6:
+            # window breakpoints strictly inside edgeless trees (and some at their ends): the non-missing span of
+            # such a window is only part of it
+            pts = set(windows or [0.0, ref.L])
+            for t in gaps:
+                r2 = rng.random()
+                if r2 < 0.7:
+                    pts.add(t.left + (t.right - t.left) * rng.choice([0.5, 0.25, 0.75]))
+                if r2 > 0.5 and rng.random() < 0.5:
+                    pts.add(rng.choice([t.left, t.right]))
+            windows = sorted(pts)
+            span_normalise = span_normalise or rng.random() < 0.6
+            ctx.feature("coalescence:window-breakpoint-inside-gap")
         times = sorted(set(ref.m.time(u) for u in range(ref.N)))
         if rng.random() < 0.5:
             tw_arg, bins = "nodes", None
